@@ -46,6 +46,65 @@ def guarded_from_arg(body, argexpr):
     from_arg_call(strip(body[0].body)[0], argexpr)
 
 
+def doc_slot(s):
+    """`if isinstance(block_type, Function) and <docstring test>: constants[0] = block_type.docstring` -> Gallina res (fromargs C), or None"""
+    if not (isinstance(s, ast.If) and not s.orelse and isinstance(s.test, ast.BoolOp) and isinstance(s.test.op, ast.And) and len(s.test.values) == 2
+            and same(s.test.values[0], "isinstance(block_type, Function)") and len(strip(s.body)) == 1
+            and same(strip(s.body)[0], "constants[0] = block_type.docstring", "exec")):
+        return None
+    t = s.test.values[1]
+    if same(t, "block_type.docstring is not None"):
+        pat = "Some d"
+    elif same(t, "block_type.docstring"):
+        pat = "Some ((_ :: _) as d)"          # truthiness: neither None nor the empty string
+    else:
+        return None
+    return ("(match block_type with Some f => match fn_doc f with %s => fa_setitem keq fromargs_empty 0 (str_c d) | _ => OK fromargs_empty end "
+            "| None => OK fromargs_empty end)" % pat)
+
+
+def translate_enc_init(tree):
+    """the prologue of blocks_to_bytes: the four empty tables, varnames seeded with the parameter names, the docstring slot"""
+    f = next((n for n in tree.body if isinstance(n, ast.FunctionDef) and n.name == "blocks_to_bytes"), None)
+    if f is None or f.decorator_list or [a.arg for a in f.args.args] != ["blocks", "additional_args", "freevars", "block_type"]:
+        raise Decline("blocks_to_bytes")
+    body = strip(f.body)
+    tables = {}
+    seed = None
+    doc = None
+    for s in body:
+        if isinstance(s, ast.For) and isinstance(s.iter, ast.Call) and same(s.iter.func, "enumerate") and same(s.iter.args[0], "blocks"):
+            break                                       # the first loop over the instructions: end of the prologue
+        if isinstance(s, ast.Assign) and len(s.targets) == 1 and isinstance(s.targets[0], ast.Name) and s.targets[0].id in ("names", "varnames", "cellvars", "constants"):
+            want = "FromArgs[ConstantValue](_hash_fn=constant_key)" if s.targets[0].id == "constants" else "FromArgs[str]()"
+            if not same(s.value, want) or seed or doc:
+                raise Decline("table " + s.targets[0].id)
+            tables[s.targets[0].id] = True
+        elif isinstance(s, ast.If) and same(s.test, "isinstance(block_type, Function)") and not s.orelse and len(strip(s.body)) == 1:
+            lp = strip(s.body)[0]
+            if not (isinstance(lp, ast.For) and not lp.orelse and same(lp.iter, "enumerate(args_to_varnames(block_type.args))")
+                    and isinstance(lp.target, ast.Tuple) and len(lp.target.elts) == 2 and all(isinstance(x, ast.Name) for x in lp.target.elts)
+                    and len(strip(lp.body)) == 1
+                    and same(strip(lp.body)[0], "varnames[%s] = %s" % (lp.target.elts[0].id, lp.target.elts[1].id), "exec")):
+                raise Decline("seeding of varnames")
+            seed = True
+        elif doc_slot(s):
+            doc = doc_slot(s)
+        elif isinstance(s, (ast.Assign, ast.AnnAssign)) and isinstance(s.targets[0] if isinstance(s, ast.Assign) else s.target, ast.Name) \
+                and (s.targets[0] if isinstance(s, ast.Assign) else s.target).id in ("changed_instruction_lengths", "block_index_to_instruction_offset", "args"):
+            continue                                    # locals of the later loops
+        else:
+            raise Decline("statement of the prologue of blocks_to_bytes: " + ast.dump(s)[:60])
+    if set(tables) != {"names", "varnames", "cellvars", "constants"}:
+        raise Decline("tables of blocks_to_bytes")
+    seed_t = ("(match block_type with Some f => foldM (fun t ik => fa_setitem str_eqb t (fst ik) (snd ik)) "
+              "(combine (map Z.of_nat (seq 0 (length (args_to_varnames (fn_args f))))) (args_to_varnames (fn_args f))) fromargs_empty | None => OK fromargs_empty end)"
+              if seed else "OK fromargs_empty")
+    doc_t = doc or "OK fromargs_empty"
+    return ("  Definition enc_init (block_type : option function) : res (encstate C) :=\n"
+            "    do varnames <- %s;\n    do constants <- %s;\n    OK (mkEnc fromargs_empty varnames fromargs_empty constants).\n" % (seed_t, doc_t))
+
+
 def translate_b2c(tree):
     f = next((n for n in tree.body if isinstance(n, ast.FunctionDef) and n.name == "blocks_to_constants"), None)
     if f is None or f.decorator_list or [a.arg for a in f.args.args] != ["blocks", "additional_args", "block_type"]:
@@ -59,10 +118,8 @@ def translate_b2c(tree):
             seen_init = True
         elif same(s, "unused = FromArgs[str]()", "exec"):
             seen_unused = True
-        elif isinstance(s, ast.If) and not s.orelse and same(s.test, "isinstance(block_type, Function) and block_type.docstring is not None") \
-                and len(strip(s.body)) == 1 and same(strip(s.body)[0], "constants[0] = block_type.docstring", "exec") and seen_init and not steps:
-            doc = ("(match block_type with Some f => match fn_doc f with Some d => fa_setitem keq fromargs_empty 0 (str_c d) | None => OK fromargs_empty end "
-                   "| None => OK fromargs_empty end)")
+        elif doc_slot(s) and seen_init and not steps:
+            doc = doc_slot(s)
         elif isinstance(s, ast.For) and not s.orelse and isinstance(s.target, ast.Name) and isinstance(s.iter, ast.Name) and s.iter.id == "blocks":
             inner = strip(s.body)
             if not (len(inner) == 1 and isinstance(inner[0], ast.For) and not inner[0].orelse and isinstance(inner[0].target, ast.Name)
@@ -84,7 +141,8 @@ def translate_b2c(tree):
     return ("Section B2C.\n  Context {C : Type} (keq : C -> C -> bool) (is_str : C -> bool) (none_c : C) (str_c : str -> C).\n"
             "  Definition blocks_to_constants (blocks : list (list (instr_ C))) (additional_args : list (arg_ C)) (block_type : option function) : res (list C) :=\n"
             "    let step := fun (a : arg_ C) (st : encstate C) => match a with AConst _ _ => do r <- PCD.Gen.SrcFromArg.from_arg keq is_str none_c a block_type [] st; OK (snd r) | _ => OK st end in\n"
-            "    do constants <- %s;\n    let st := mkEnc (@fromargs_empty str) (@fromargs_empty str) (@fromargs_empty str) constants in\n    %s.\nEnd B2C.\n" % (doc, text))
+            "    do constants <- %s;\n    let st := mkEnc (@fromargs_empty str) (@fromargs_empty str) (@fromargs_empty str) constants in\n    %s.\n" % (doc, text)
+            + translate_enc_init(tree) + "End B2C.\n")
 
 
 def translate_iter(tree):
